@@ -36,6 +36,7 @@ def run(ctx):
     beta_forward(ctx, fb, T)
     init_all(ctx, fb)
     scales_output(ctx, fb)
+    prepack_stride(ctx, fb)
     import C17
     C17.accumulate_only(ctx, fb, 'C16.beta-only-output', lambda f: f.path.startswith(('rten_gemm::kernels', '<rten_gemm::kernels')) and not C17.is_int8_fn(f),
                         label='f32 kernel functions with a beta test', floor=5)
@@ -702,3 +703,48 @@ def scales_output(ctx, fb):
                              'beta multiplies a value that is not read from the output: the new product would be scaled by beta instead of the previous contents', loc)
                     break
     ctx.floor(R, 'multiplications by beta', n, 6)
+
+
+
+def prepack_stride(ctx, fb):
+    """PackedMatrixBase::block returns (data, panel_stride); the consumer walks `data` in steps of the returned stride, so
+    every panel offset inside block() must be computed with that same value (the stride selected for this depth block)"""
+    R = 'C16.prepack-stride'
+    f = fb.fn('rten_gemm::prepack::PackedMatrixBase::block')
+    if f is None or not f.has_mir():
+        ctx.inst(R, 'anchor:PackedMatrixBase::block', False, 'rten_gemm::prepack::PackedMatrixBase::block not found', '')
+        return
+
+    def root(op, depth=8):
+        l = op_local(op)
+        while l is not None and depth > 0:
+            depth -= 1
+            ds = f.defs().get(l, [])
+            if len(ds) == 1 and ds[0][2] != 'call' and ds[0][3][0] == 'use' and op_place(ds[0][3][1]) is not None and len(op_place(ds[0][3][1])) == 1:
+                l = op_place(ds[0][3][1])[0]
+                continue
+            break
+        return l
+    # the stride handed back to the caller
+    ret = None
+    for (bb, j, k, payload, dpl) in f.defs().get(0, []):
+        if k != 'call' and payload[0] == 'agg' and payload[1] == 'tuple' and len(payload[4]) == 2:
+            ret = root(payload[4][1])
+    if ret is None:
+        ctx.inst(R, 'anchor:returned-stride', False, 'block() no longer returns a (data, stride) tuple', f.loc())
+        return
+    is_stride = lambda o: any(x[0] == 'param' and x[1] == 0 and any(str(z) in ('panel_stride', 'tail_panel_stride') for z in x[2]) for x in f.origins(o))
+    n = 0
+    bad = None
+    for i, b in enumerate(f.bbs):
+        if b.get('c') or i not in f.live():
+            continue
+        for st in b['s']:
+            if st[0] == '=' and st[2][0] == 'bin' and st[2][1].startswith('Mul'):
+                for o in (st[2][2], st[2][3]):
+                    if op_place(o) is not None and is_stride(o):
+                        n += 1
+                        if root(o) != ret or len(op_place(o)) != 1:
+                            bad = '%s:%s' % (f.file, st[3] if len(st) > 3 else '')
+    ctx.inst(R, 'offsets-use-returned-stride', bad is None and n >= 2, 'all %d panel offsets in PackedMatrixBase::block are multiples of the stride that is returned to the caller' % n if bad is None and n >= 2 else
+             'a panel offset in PackedMatrixBase::block is computed with a stride other than the one returned to the caller: in the tail depth block the kernel would read the wrong panels', bad or f.loc())
